@@ -332,6 +332,62 @@ func checkC10(c *Ctx) {
 				sprintf("on the SSE branch %s places a sender into the handler's context that is not unconditionally the SSE sender of this POST's ResponseWriter (e.g. a no-op sender on some path): notifications the handler emits are silently dropped", pn))
 		} else {
 			c.R.Check(!isSSESender(sv), "R-sender-in-ctx", construct+" (JSON)", c.Pos(call.Pos()), "JSON responses use the no-op sender", "the JSON branch writes notifications into a JSON response")
+			// ... and the sender it does use is silent: with a JSON answer in-call notifications are dropped without
+			// affecting the result, so every method of the sender's type returns nil and does nothing that can fail
+			loud := ""
+			var silent func(v ssa.Value, d int)
+			silent = func(v ssa.Value, d int) {
+				if d > 4 || loud != "" {
+					return
+				}
+				switch x := v.(type) {
+				case *ssa.MakeInterface:
+					silent(x.X, d+1)
+					return
+				case *ssa.ChangeInterface:
+					silent(x.X, d+1)
+					return
+				case *ssa.Phi:
+					for _, e := range x.Edges {
+						silent(e, d+1)
+					}
+					return
+				case *ssa.UnOp:
+					if u := unspill(x); u != ssa.Value(x) {
+						silent(u, d+1)
+						return
+					}
+				}
+				T := v.Type()
+				ms := c.P.SSA.MethodSets.MethodSet(T)
+				si := senderIface.Underlying().(*types.Interface)
+				for i := 0; i < si.NumMethods(); i++ {
+					sel := ms.Lookup(si.Method(i).Pkg(), si.Method(i).Name())
+					if sel == nil {
+						loud = "a value whose methods cannot be resolved"
+						return
+					}
+					mf := c.P.SSA.MethodValue(sel)
+					if mf == nil || mf.Blocks == nil {
+						continue
+					}
+					ir.EachInstr(mf, func(_ *ssa.BasicBlock, _ int, in ssa.Instruction) {
+						switch y := in.(type) {
+						case ssa.CallInstruction:
+							loud = sprintf("%s, whose method %s calls %s", ir.TypeStr(T), mf.Name(), ir.CallName(y))
+						case *ssa.Return:
+							for _, r := range y.Results {
+								if !ir.IsNilConst(r) {
+									loud = sprintf("%s, whose method %s can return an error", ir.TypeStr(T), mf.Name())
+								}
+							}
+						}
+					})
+				}
+			}
+			silent(sv, 0)
+			c.R.Check(loud == "", "R-sender-in-ctx", construct+" (JSON): silent sender", c.Pos(call.Pos()), "every method of the sender used for JSON answers returns nil and does nothing else",
+				sprintf("on the JSON branch %s gives the handler a sender of type %s: an in-call notification is then not dropped silently — a handler that treats a failed emission as a failure aborts and the call is answered with an error instead of its result (or the notification overtakes the result on another stream)", pn, loud))
 		}
 		// ---- R-response-last: every responder call is dominated by this dispatch or lies on a disjoint branch
 	})
@@ -412,6 +468,7 @@ func checkC10(c *Ctx) {
 	c10OneResponder(c, "R-one-responder")
 	c10SenderSendsAll(c, "R-sender-sends-all")
 	c10NoBuiltinTimeouts(c, "R-no-transport-timeout")
+	c10AssertReaches(c)
 }
 
 func c10Client(c *Ctx) {
@@ -1088,4 +1145,171 @@ func c10NoBuiltinTimeouts(c *Ctx, rule string) {
 	if n == 0 {
 		c.R.Hold(rule, "the library sets no response-header or whole-request timeout on its HTTP client", "", "")
 	}
+}
+
+// ---------------------------------------------------------------- R-assert-reaches
+// The client finds the transport's notification-handler table by asserting its transport member to the concrete
+// transport types (`c.transport.(*streamableHTTPClientTransport)`) and silently does nothing when no assertion
+// matches. That only works while the member holds the concrete transports themselves: a decorator stored there (a type
+// that wraps another transport in a member of the transport interface) matches none of the assertions, and every
+// RegisterNotificationHandler becomes a no-op — the notifications of a call are dropped although a handler was
+// registered. For every interface member that library code asserts to concrete types, no type stored into it may
+// itself hold a value of that interface.
+func c10AssertReaches(c *Ctx) {
+	// interface members that are asserted to concrete library types
+	type member struct {
+		key   string
+		iface *types.Interface
+	}
+	asserted := map[string]*types.Interface{}
+	for _, fn := range c.P.LibFns {
+		if !clientSide(c, fn) {
+			continue
+		}
+		ir.EachInstr(fn, func(_ *ssa.BasicBlock, _ int, in ssa.Instruction) {
+			ta, ok := in.(*ssa.TypeAssert)
+			if !ok || types.IsInterface(ta.AssertedType) {
+				return
+			}
+			f, _, ok := ir.LoadedField(ta.X)
+			if !ok {
+				return
+			}
+			it, ok := f.Type.Underlying().(*types.Interface)
+			if !ok || it.NumMethods() == 0 {
+				return
+			}
+			if nt, ok := f.Type.(*types.Named); !ok || !ir.InLibrary(nt) {
+				return
+			}
+			asserted[f.Key()] = it
+		})
+	}
+	if len(asserted) == 0 {
+		c.R.Break("R-assert-reaches: no interface member of a client is asserted to a concrete type")
+		return
+	}
+	// concrete types that reach a value
+	var typesOf func(fn *ssa.Function, v ssa.Value, d int, seen map[ssa.Value]bool, out map[string]types.Type)
+	typesOf = func(fn *ssa.Function, v ssa.Value, d int, seen map[ssa.Value]bool, out map[string]types.Type) {
+		if v == nil || d > 6 || seen[v] {
+			return
+		}
+		seen[v] = true
+		switch x := v.(type) {
+		case *ssa.MakeInterface:
+			out[ir.TypeStr(x.X.Type())] = x.X.Type()
+		case *ssa.ChangeInterface:
+			typesOf(fn, x.X, d+1, seen, out)
+		case *ssa.Phi:
+			for _, e := range x.Edges {
+				typesOf(fn, e, d+1, seen, out)
+			}
+		case *ssa.Extract:
+			typesOf(fn, x.Tuple, d+1, seen, out)
+		case *ssa.Call:
+			if sc := ir.StaticCallee(x); sc != nil && c.P.IsLib(sc) && sc.Blocks != nil {
+				for _, b := range sc.Blocks {
+					if ret, ok := b.Instrs[len(b.Instrs)-1].(*ssa.Return); ok && b != sc.Recover && len(ret.Results) > 0 {
+						typesOf(sc, ir.Results(ret)[0], d+1, seen, out)
+					}
+				}
+			}
+		case *ssa.Parameter:
+			idx := -1
+			for i, q := range fn.Params {
+				if q == x {
+					idx = i
+				}
+			}
+			for _, e := range ir.Callers(c.G, fn) {
+				if e.Site == nil || !c.P.IsLib(e.Caller.Func) {
+					continue
+				}
+				cc := e.Site.Common()
+				ai := idx
+				if cc.IsInvoke() {
+					ai--
+				}
+				if ai >= 0 && ai < len(cc.Args) {
+					typesOf(e.Caller.Func, cc.Args[ai], d+1, seen, out)
+				}
+			}
+		case *ssa.UnOp:
+			if u := unspill(x); u != ssa.Value(x) {
+				typesOf(fn, u, d+1, seen, out)
+			}
+		}
+	}
+	keys := make([]string, 0, len(asserted))
+	for k := range asserted {
+		keys = append(keys, k)
+	}
+	sort.Strings(keys)
+	n := 0
+	for _, key := range keys {
+		iface := asserted[key]
+		stored := map[string]types.Type{}
+		for _, fn := range c.P.LibFns {
+			ir.EachInstr(fn, func(_ *ssa.BasicBlock, _ int, in ssa.Instruction) {
+				st, ok := in.(*ssa.Store)
+				if !ok {
+					return
+				}
+				fa, ok := st.Addr.(*ssa.FieldAddr)
+				if !ok {
+					return
+				}
+				if f, _, ok := ir.FieldOf(fa); !ok || f.Key() != key {
+					return
+				}
+				typesOf(fn, st.Val, 0, map[ssa.Value]bool{}, stored)
+			})
+		}
+		var names []string
+		for k := range stored {
+			names = append(names, k)
+		}
+		sort.Strings(names)
+		for _, name := range names {
+			T := stored[name]
+			n++
+			// does T hold a value of the member's interface (a decorator)?
+			wraps := ""
+			base := T
+			if p, ok := base.(*types.Pointer); ok {
+				base = p.Elem()
+			}
+			if st, ok := base.Underlying().(*types.Struct); ok {
+				for i := 0; i < st.NumFields(); i++ {
+					ft := st.Field(i).Type()
+					if fi, ok := ft.Underlying().(*types.Interface); ok && fi.NumMethods() > 0 && types.Implements(T, fi) && (types.Identical(fi, iface) || implementsAll(fi, iface) || implementsAll(iface, fi)) {
+						wraps = st.Field(i).Name()
+					}
+				}
+			}
+			c.R.Check(wraps == "", "R-assert-reaches", sprintf("%s stored into %s", name, key), "", "a concrete transport, not a wrapper around one",
+				sprintf("a value of type %s is stored into %s, a member the client asserts to concrete types to find the notification-handler table; %s wraps another value of that interface (member %s), so none of the assertions matches and registering a notification handler silently does nothing — the notifications of a call never reach the handler", name, key, name, wraps))
+		}
+	}
+	if n == 0 {
+		c.R.Break("R-assert-reaches: no concrete type found that is stored into an asserted interface member")
+	}
+}
+
+// implementsAll: every method of b is a method of a.
+func implementsAll(a, b *types.Interface) bool {
+	for i := 0; i < b.NumMethods(); i++ {
+		m := b.Method(i)
+		found := false
+		for j := 0; j < a.NumMethods(); j++ {
+			if a.Method(j).Name() == m.Name() {
+				found = true
+			}
+		}
+		if !found {
+			return false
+		}
+	}
+	return true
 }
